@@ -42,12 +42,16 @@ pub struct BuildResult {
     pub rounds: usize,
     pub cargo_invocations: usize,
     pub build_wall_s: f64,
+    /// (wall seconds, binaries that failed) per cargo invocation
+    pub round_walls: Vec<(f64, usize)>,
+    pub run_wall_s: f64,
 }
 
 pub struct Crate {
-    pub tag: String,
     pub dir: PathBuf,
     pub bins: Vec<Vec<usize>>,
+    /// false: the modules carry only the generator's text (no `check`), nothing is executed
+    pub with_checks: bool,
 }
 
 fn cargo_toml(tag: &str) -> String {
@@ -69,19 +73,26 @@ debug = 0
 incremental = false
 overflow-checks = true
 
+# the derive macros (serde_derive, candid_derive) run once per emitted item: optimise them
+[profile.dev.build-override]
+opt-level = 2
+debug = 0
+
 [workspace]
 "#
     )
 }
 
-fn bin_main(mods: &[usize]) -> String {
+fn bin_main(mods: &[usize], with_checks: bool) -> String {
     let mut s = String::from("#![allow(warnings)]\n#[path = \"../../dump.rs\"]\nmod dump;\n");
     for m in mods {
         s.push_str(&format!("mod m{m};\n"));
     }
     s.push_str("fn main() {\n    let mut out: ::std::vec::Vec<::std::string::String> = ::std::vec::Vec::new();\n");
     for m in mods {
-        s.push_str(&format!("    dump::run(\"m{m}\", m{m}::check, &mut out);\n"));
+        if with_checks {
+            s.push_str(&format!("    dump::run(\"m{m}\", m{m}::check, &mut out);\n"));
+        }
     }
     s.push_str("    for l in out {\n        println!(\"{}\", l);\n    }\n}\n");
     s
@@ -93,26 +104,28 @@ pub fn machinery(msg: &str) -> ! {
 }
 
 impl Crate {
-    /// Lay the crate out: `nbins` binaries, module i goes to binary i % nbins.
-    pub fn create(tag: &str, modules: &[Module], nbins: usize) -> Crate {
+    /// Lay the crate out: `nbins` binaries over contiguous ranges of the modules.
+    pub fn create(tag: &str, modules: &[Module], nbins: usize, with_checks: bool) -> Crate {
         let dir = Path::new(WORK).join(tag);
         let _ = std::fs::remove_dir_all(dir.join("src"));
         std::fs::create_dir_all(dir.join("src/bin")).unwrap_or_else(|e| machinery(&format!("mkdir {dir:?}: {e}")));
         std::fs::write(dir.join("Cargo.toml"), cargo_toml(tag)).unwrap_or_else(|e| machinery(&format!("write Cargo.toml: {e}")));
-        if !dir.join("Cargo.lock").exists() {
-            std::fs::copy("/verif/mc/Cargo.lock", dir.join("Cargo.lock")).unwrap_or_else(|e| machinery(&format!("copy Cargo.lock: {e}")));
-        }
+        // the explorer workspace's lock file resolves everything offline
+        std::fs::copy("/verif/mc/Cargo.lock", dir.join("Cargo.lock")).unwrap_or_else(|e| machinery(&format!("copy Cargo.lock: {e}")));
         std::fs::write(dir.join("src/dump.rs"), DUMP_RS).unwrap();
         let nbins = nbins.max(1);
         let mut bins: Vec<Vec<usize>> = vec![vec![]; nbins];
+        // contiguous ranges: programs of one family (which tend to fail together) share a binary,
+        // so that the other binaries build in the first round
+        let per = modules.len().div_ceil(nbins).max(1);
         for (k, m) in modules.iter().enumerate() {
-            bins[k % nbins].push(m.idx);
+            bins[(k / per).min(nbins - 1)].push(m.idx);
         }
-        let c = Crate { tag: tag.to_string(), dir, bins };
+        let c = Crate { dir, bins, with_checks };
         for (b, mods) in c.bins.iter().enumerate() {
             let bd = c.dir.join(format!("src/bin/b{b}"));
             std::fs::create_dir_all(&bd).unwrap();
-            std::fs::write(bd.join("main.rs"), bin_main(mods)).unwrap();
+            std::fs::write(bd.join("main.rs"), bin_main(mods, with_checks)).unwrap();
         }
         let by_idx: BTreeMap<usize, &Module> = modules.iter().map(|m| (m.idx, m)).collect();
         for (b, mods) in c.bins.iter().enumerate() {
@@ -124,7 +137,7 @@ impl Crate {
     }
 
     fn rewrite_bin(&self, b: usize) {
-        std::fs::write(self.dir.join(format!("src/bin/b{b}/main.rs")), bin_main(&self.bins[b])).unwrap();
+        std::fs::write(self.dir.join(format!("src/bin/b{b}/main.rs")), bin_main(&self.bins[b], self.with_checks)).unwrap();
     }
 
     /// One `cargo build`. Returns (success, errors by (bin, module) in order, executables by bin,
@@ -210,7 +223,9 @@ impl Crate {
         loop {
             res.rounds += 1;
             res.cargo_invocations += 1;
+            let tr = std::time::Instant::now();
             let (ok, errs, ex, failed_bins, unattributed) = self.cargo();
+            res.round_walls.push((tr.elapsed().as_secs_f64(), failed_bins.len()));
             exes.extend(ex);
             if ok {
                 break;
@@ -246,8 +261,9 @@ impl Crate {
             }
         }
         res.build_wall_s = t0.elapsed().as_secs_f64();
+        let t1 = std::time::Instant::now();
         for (b, mods) in self.bins.iter().enumerate() {
-            if mods.is_empty() {
+            if mods.is_empty() || !self.with_checks {
                 continue;
             }
             let Some(exe) = exes.get(&b) else { machinery(&format!("no executable reported for b{b}")) };
@@ -266,6 +282,7 @@ impl Crate {
                 }
             }
         }
+        res.run_wall_s = t1.elapsed().as_secs_f64();
         res
     }
 }
@@ -311,7 +328,7 @@ fn module_of_path(f: &str) -> Option<usize> {
 /// Pre-build the dependencies of the generated crate (candid, serde, serde_bytes) in the
 /// shared target directory.
 pub fn prepare() -> i32 {
-    let mut c = Crate::create("prepare", &[], 1);
+    let mut c = Crate::create("prepare", &[], 1, true);
     // an empty binary still links candid
     let r = c.build_and_run(1);
     println!("c18 --prepare: dependencies of the generated crate built in {TARGET} ({:.1}s)", r.build_wall_s);
